@@ -170,6 +170,39 @@ impl Check for C11 {
                     }
                 }
             }
+            // a range of a range is checked against the intermediate sequence
+            if n <= 4 {
+                let m = n as i64 + 1;
+                for a in 0..=m {
+                    for b2 in 0..=m {
+                        for c2 in 0..=m {
+                            for d2 in 0..=m {
+                                let ok1 = a <= b2 && b2 <= n as i64;
+                                let ok2 = ok1 && c2 <= d2 && d2 <= b2 - a;
+                                let src = format!("xs := {}\nprint(xs[{}:{}][{}:{}])\n", l, a, b2, c2, d2);
+                                if ok2 {
+                                    cases.push(defined_case(src, render_list(&items[(a + c2) as usize..(a + d2) as usize]), "range of a range"));
+                                } else {
+                                    cases.push(error_case(src, "range of a range out of domain"));
+                                }
+                            }
+                        }
+                    }
+                }
+                for a in 0..=m {
+                    for b2 in 0..=m {
+                        for i2 in 0..=m {
+                            let ok = a <= b2 && b2 <= n as i64 && i2 < b2 - a;
+                            let src = format!("xs := {}\nprint(xs[{}:{}][{}])\n", l, a, b2, i2);
+                            if ok {
+                                cases.push(defined_case(src, format!("{}\n", items[(a + i2) as usize]), "index of a range"));
+                            } else {
+                                cases.push(error_case(src, "index of a range out of domain"));
+                            }
+                        }
+                    }
+                }
+            }
             // split law s[:k] + s[k:] == s, evaluated by the subject
             for k in 0..=n {
                 let src = format!("xs := {}\nprint((xs[:{}] + xs[{}:]) == xs)\nprint((xs[:{}] + xs[{}:]) === xs)\n", l, k, k, k, k);
@@ -240,6 +273,25 @@ impl Check for C11 {
                         format!("s := {}\ns[{}:{}] = \"z\"\nprint(s)\n", lit, bound_src(*a), bound_src(*b)),
                         "string range assignment",
                     ));
+                }
+            }
+            if n <= 4 {
+                let m = n as i64 + 1;
+                for a in 0..=m {
+                    for b2 in 0..=m {
+                        for c2 in 0..=m {
+                            for d2 in 0..=m {
+                                let ok1 = a <= b2 && b2 <= n as i64;
+                                let ok2 = ok1 && c2 <= d2 && d2 <= b2 - a;
+                                let src = format!("s := {}\nprint(s[{}:{}][{}:{}])\n", lit, a, b2, c2, d2);
+                                if ok2 {
+                                    cases.push(defined_case(src, format!("{}\n", &s[(a + c2) as usize..(a + d2) as usize]), "range of a string range"));
+                                } else {
+                                    cases.push(error_case(src, "range of a string range out of domain"));
+                                }
+                            }
+                        }
+                    }
                 }
             }
             for k in 0..=n {
